@@ -2,6 +2,7 @@ import NxProofs.Cipher
 import NxProofs.Refine
 import NxProofs.RefineSend
 import NxProofs.Sys
+import NxProofs.Duplex
 import NxProofs.Liveness
 import NxProofs.Unreliable
 import NxProps.C04
@@ -573,5 +574,68 @@ example :
     (Sys.run env 0 (Sys.fresh a b) ops).b.queues = [[[1, 2, 3], [9]]] ∧
     (Sys.run env 0 (Sys.fresh a b) ops).accepted = [[1, 2, 3], [9]] ∧
     (Sys.run env 0 (Sys.fresh a b) ops).b.eof = true := by decide +kernel
+
+/-! ## both directions of a connection at once -/
+
+open Nx.L1 Nx.Prudp in
+/-- **"For each direction … every interleaving of sends in both directions."** Two endpoints A and B, each both sender and
+    receiver on substream `sub`. A history is any sequence of: an application `send` at either end, a keep-alive of either
+    end, the delivery (through `handle`: gates, acknowledgement, window, release loop) of ANY packet either end has ever
+    emitted to the other end — any order, any number of times, never = loss —, any acknowledgement arriving at either
+    end, a retransmission timer of either end firing. In every state such a history reaches, what B's application can read
+    is a prefix of what A's application sent AND what A's application can read is a prefix of what B's sent. The step
+    hypotheses (`Duplex.opOk`) are those of `Sys.opOk` for each view; for a delivery that is the half-window condition alone
+    (`delivery_hypothesis_is_the_window`). -/
+theorem C01_duplex_safety (env : Env) (hl : EnvLaws env) (sub : Nat) (ciA ciB : Cipher) (sizeA sizeB : Nat) (hA : 1 ≤ sizeA) (hB : 1 ≤ sizeB)
+    (startA startB : Nat) (ops : List DOp) (d : Duplex) (chAB chBA : Chan)
+    (h0 : DGood env sub ciA ciB sizeA sizeB startA startB d chAB chBA) (hok : Duplex.runOk env sub d ops = true) :
+    ((Duplex.run env sub d ops).ab.b.queues[sub]?.getD []) <+: (Duplex.run env sub d ops).ab.accepted ∧
+    ((Duplex.run env sub d ops).ab.a.queues[sub]?.getD []) <+: (Duplex.run env sub d ops).ba.accepted :=
+  duplex_safe (duplex_run env hl sub ciA ciB sizeA sizeB hA hB startA startB ops d chAB chBA h0 hok)
+
+open Nx.L1 Nx.Prudp in
+/-- … and once everything either end emitted has been released at the other end (both still connected), each application has
+    exactly what the other one sent -/
+theorem C01_duplex_complete (env : Env) (hl : EnvLaws env) (sub : Nat) (ciA ciB : Cipher) (sizeA sizeB : Nat) (hA : 1 ≤ sizeA) (hB : 1 ≤ sizeB)
+    (startA startB : Nat) (ops : List DOp) (d : Duplex) (chAB chBA : Chan)
+    (h0 : DGood env sub ciA ciB sizeA sizeB startA startB d chAB chBA) (hok : Duplex.runOk env sub d ops = true)
+    (hallA : (Duplex.run env sub d ops).ab.nrel = (Duplex.run env sub d ops).ab.net.length)
+    (hallB : (Duplex.run env sub d ops).ba.nrel = (Duplex.run env sub d ops).ba.net.length)
+    (hopenA : (Duplex.run env sub d ops).ab.a.state = STATE_CONNECTED) (hopenB : (Duplex.run env sub d ops).ba.a.state = STATE_CONNECTED) :
+    ((Duplex.run env sub d ops).ab.b.queues[sub]?.getD []) = (Duplex.run env sub d ops).ab.accepted ∧
+    ((Duplex.run env sub d ops).ab.a.queues[sub]?.getD []) = (Duplex.run env sub d ops).ba.accepted :=
+  duplex_complete (duplex_run env hl sub ciA ciB sizeA sizeB hA hB startA startB ops d chAB chBA h0 hok) hallA hallB hopenA hopenB
+
+open Nx.L1 Nx.Prudp in
+/-- the duplex hypotheses hold for two endpoints that are `Established` in both directions (what a handshake leaves) -/
+theorem C01_duplex_established (env : Env) (sub startA startB : Nat) (a b : Conn)
+    (hab : Established sub startA a b) (hba : Established sub startB b a) :
+    DGood env sub (cipherOf a sub) (cipherOf b sub) a.fragmentSize b.fragmentSize startA startB
+      { ab := Sys.fresh a b, ba := Sys.fresh b a } (Chan.init startA) (Chan.init startB) :=
+  duplex_established env sub startA startB a b hab hba
+
+open Nx.L1 Nx.Prudp in
+theorem delivery_hypothesis_is_the_window {env : Env} {sub : Nat} {ci : Cipher} {size start : Nat} {d : Duplex} {ch : Chan} (now : Time) (j : Nat)
+    (h : Good env sub ci size start d.ab ch) : d.opOk env sub (.toB now j) = d.ab.opOk env sub (.deliverH now j) :=
+  toB_ok now j h
+
+/-! non-vacuity: two established endpoints; A sends a two-fragment message, B two messages; the packets of both directions
+    are delivered out of order, one twice; a keep-alive of A, an acknowledgement arriving at A; the run meets `Duplex.runOk`,
+    both endpoints are `Established` towards each other at the start, and at the end each application has exactly what the
+    other one sent -/
+open Nx.L1 Nx.Prudp in
+example :
+    let env : Env := { C04.toyEnv with s := { fragmentSize := 2, transport := TRANSPORT_TCP } }
+    let a := { Conn.new env (some 1) 1 2 3 ("10.0.0.2", 1) 15 10 ("10.0.0.1", 2) 1 10 with state := STATE_CONNECTED, remoteSessionId := some 6 }
+    let b := { Conn.new env (some 1) 4 5 6 ("10.0.0.1", 2) 1 10 ("10.0.0.2", 1) 15 10 with state := STATE_CONNECTED, remoteSessionId := some 3 }
+    let ack : Packet := { type := TYPE_DATA, flags := FLAG_ACK, packetId := 1, sessionId := 6, signature := some [1] }
+    let ops := [DOp.sendA 0 [1, 2, 3], .sendB 0 [7, 7], .toB 1 1, .toA 1 0, .toB 2 0, .toB 3 1, .pingA 4, .toB 4 2, .sendB 5 [8],
+                .toA 6 1, .ackToA 6 ack, .toA 7 0]
+    let d0 : Duplex := { ab := Sys.fresh a b, ba := Sys.fresh b a }
+    (establishedB 0 1 a b && establishedB 0 1 b a) = true ∧
+    Duplex.runOk env 0 d0 ops = true ∧
+    (Duplex.run env 0 d0 ops).ab.b.queues = [[[1, 2, 3]]] ∧ (Duplex.run env 0 d0 ops).ab.accepted = [[1, 2, 3]] ∧
+    (Duplex.run env 0 d0 ops).ab.a.queues = [[[7, 7], [8]]] ∧ (Duplex.run env 0 d0 ops).ba.accepted = [[7, 7], [8]] ∧
+    (Duplex.run env 0 d0 ops).ab.a = (Duplex.run env 0 d0 ops).ba.b := by decide +kernel
 
 end Nx.C01
